@@ -176,14 +176,14 @@ LONG_N = [2400, 5000, 2049, 4097, 1025, 4096, 2048, 1024, 1000, 1023, 2047, 4095
 @st.composite
 def long_spec(draw, ctx):
     """A long series described by a dozen numbers (expanded in the body, see expand): abscissae unit / float step /
-    repeated gap motif; values offset + sig*sin(periods turns over the range) + hash noise whose summed squared
-    deviation from its mean is E0.  Smoothing conditions for such a series are chosen near E0: FITPACK then needs
+    repeated gap motif; values offset + snr*a*sin(periods turns over the range) + hash noise of amplitude a whose
+    summed squared deviation from its mean is E0.  Smoothing conditions for such a series are chosen near E0: FITPACK then needs
     O(100) knots and a few hundredths of a second, whereas s far below the noise energy costs seconds to minutes."""
     return dict(n=draw(st.sampled_from(LONG_N + ctx.pick([], [8192, 8193]))),
                 xk=draw(st.sampled_from(["unit", "fstep", "motif"])), x0=float(draw(st.integers(-50, 50))),
                 h=draw(st.sampled_from([1.0, 0.25, 3.0, 0.01, 60.0])),
                 gaps=draw(st.lists(st.sampled_from([0.5, 1.0, 1.5, 2.0, 7.0]), min_size=1, max_size=4)),
-                periods=draw(fl(0.5, 5.0)), sig=10.0 ** draw(fl(-1.0, 1.5)), phase=draw(fl(0.0, 6.28)),
+                periods=draw(fl(0.5, 5.0)), snr=10.0 ** draw(fl(0.5, 2.2)), phase=draw(fl(0.0, 6.28)),
                 off=draw(st.sampled_from([0.0, 0.0, 100.0, -7.5])), E0=10.0 ** draw(fl(-2.5, 1.8)),
                 seed=draw(st.integers(0, 10 ** 6)))
 
@@ -206,7 +206,10 @@ def expand(case):
     u = [math.fmod(math.sin(i * 12.9898 + sp["seed"]) * 43758.5453, 1.0) for i in range(n)]
     mean = math.fsum(u) / n
     a = math.sqrt(sp["E0"] / math.fsum((v - mean) ** 2 for v in u))
-    y = [sp["off"] + sp["sig"] * math.sin(2 * math.pi * sp["periods"] * i / n + sp["phase"]) + a * (u[i] - mean)
+    # amplitude of the sine relative to the noise amplitude (3..160): with a much cleaner signal FITPACK needs many
+    # knots to follow it to within s and takes seconds (measured 6.7 s at a ratio of 2500, n = 4096)
+    sig = sp["snr"] * a
+    y = [sp["off"] + sig * math.sin(2 * math.pi * sp["periods"] * i / n + sp["phase"]) + a * (u[i] - mean)
          for i in range(n)]
     return dict(case, x=x, y=y)
 
@@ -230,17 +233,40 @@ def base(draw, ctx, ykind=None, nonconstant=False, m_hi=80, offsets=True, long_w
         sp = draw(long_spec(ctx))
         return dict(long=sp, xkind="long-" + sp["xk"], ykind="long", xint=False, xc="array", yc="array")
     m = draw(st.one_of(st.integers(5, 12), st.integers(5, m_hi)))
-    xd = draw(xs(m, max_ratio=1e2, offsets=offsets))
+    kind = ykind or draw(st.sampled_from(["gens", "gens", "gens", "noisy", "noisy", "sine", "affine", "bigoffset",
+                                          "bigoffset", "byindex", "byindex", "affine-nonuniform", "const"]))
+    if kind == "const" and nonconstant:
+        kind = "byindex"
+    if kind in ("byindex", "affine-nonuniform"):
+        # clearly non-uniform spacing: "evenly stepped values" and "values on a straight line" are different things
+        # there (y = a + b*i is an arithmetic progression by index but not affine in x)
+        xd = draw(xs(m, ["dyadic", "motif", "loguni"], max_ratio=1e2, offsets=False))
+        g = [q - p_ for p_, q in zip(xd["x"][:-1], xd["x"][1:])]
+        if max(g) < 1.5 * min(g):                    # the drawn gaps happen to be (nearly) equal: stretch every other one
+            x_ = [xd["x"][0]]
+            for i, v in enumerate(g):
+                x_.append(x_[-1] + (3.0 * v if i % 2 else v))
+            xd = dict(xd, x=x_, kind=xd["kind"] + "-stretched")
+    else:
+        xd = draw(xs(m, max_ratio=1e2, offsets=offsets))
     x = xd["x"]
     case = dict(x=x, xkind=xd["kind"], xint=bool(xd["int"]))
-    kind = ykind or draw(st.sampled_from(["gens", "gens", "gens", "noisy", "noisy", "sine", "affine", "bigoffset",
-                                          "bigoffset"]))
-    if kind == "affine":
+    if kind == "byindex":
+        a = draw(st.one_of(st.integers(-20, 20).map(float), fl(-1e3, 1e3)))
+        b = draw(st.one_of(st.sampled_from([1.0, -1.0, 2.0, 0.5, 6.0]),
+                           st.builds(lambda sg, e: sg * 10.0 ** e, st.sampled_from([-1.0, 1.0]), fl(-1.0, 2.0))))
+        case.update(y=[a + b * i for i in range(m)], ykind="byindex")
+    elif kind == "const":
+        cst = draw(st.one_of(st.integers(-5, 5).map(float), fl(-1e3, 1e3)))
+        case.update(y=[cst] * m, ykind="const")
+    elif kind in ("affine", "affine-nonuniform"):
         p = draw(st.one_of(st.sampled_from([1.0, -1.0, 2.0, 0.5, -0.25, 3.0]),
                            st.builds(lambda sg, e: sg * 10.0 ** e, st.sampled_from([-1.0, 1.0]), fl(-3.0, 3.0)),
                            st.just(0.0)))
         c = draw(st.one_of(st.integers(-20, 20).map(float), fl(-1e3, 1e3)))
         case.update(y=[p * float(v) + c for v in x], ykind="affine", p=p, c=c)
+        if kind == "affine-nonuniform":
+            case["ykind"] = "affine-nonuniform"
     elif kind == "noisy":
         scale = 10.0 ** draw(fl(-1.5, 1.5))
         w = draw(fl(0.05, 1.5))
@@ -673,9 +699,12 @@ def apply_domain_step(w, step, limit=400):
             return "skipped"
         w.normalize_x(lo, hi)
     elif op == "normalize_y":
-        cy = [float(v) for v in w.get()[1]]
-        if not max(cy) > min(cy):
-            return "skipped"
+        # normalize_y rescales the working, the reference AND the original values, each by its own range: all three
+        # must be non-constant (documented precondition min < max; 0/0 would plant NaN for a later restore_original)
+        for arr in (w.get()[1], w.get_reference()[1], w.get_original()[1]):
+            vals = [float(v) for v in arr]
+            if not max(vals) > min(vals):
+                return "skipped"
         w.normalize_y(step["arg"][0], step["arg"][1])
     elif op == "restore_original":
         w.restore_original()
@@ -805,7 +834,7 @@ def _history(ctx, case):
                     energy *= len(w.get()[0]) / before
             done.append(op if op != "append_one_sample" else op + ("(periodic)" if step["periodic"] else ""))
             cur = [float(v) for v in w.get()[0]]
-            if len(cur) < 5 or not strictly_increasing(cur):
+            if len(cur) < 5 or not strictly_increasing(cur) or not all(math.isfinite(float(v)) for v in w.get()[1]):
                 ctx.count("history-left-the-conditioned-range")
                 return
             if step["tf"] is not None:
